@@ -126,12 +126,12 @@ EXTRA2 = {
  'C05': 'Also: no dimension object of an input is stored in the dimension table of a possibly new file.',
  'C06': 'Also: finite case analysis of the condition that applies a positional mask to a variable (10 cases); a structure-only copy keeps the coordinate keys.',
  'C07': 'Also: every parameter of the converter functions is read (options forwarded); the 0-d branch stores the array, never an extracted scalar.',
- 'C08': 'Also: century pivot and offsets decode 00-69 as 20xx and 70-99 as 19xx per element; boundary keys are split at the first underscore only; writers never write storage of their input (provenance); dtype-preserving astype is not a conversion; cloud/rain record order is a literal list.',
+ 'C08': 'Also: century pivot and offsets decode 00-69 as 20xx and 70-99 as 19xx per element; boundary keys are split at the first underscore only; writers never write storage of their input (provenance); dtype-preserving astype is not a conversion; cloud/rain record order is a literal list; every value a CAMx writer emits has its byte order fixed by the writer, never that of an input attribute (R-BYTEORDER, 70 sites).',
  'C09': 'Also: an astype that keeps the input item size gives a symbolic item size, so marker = payload fails as a polynomial identity.',
  'C10': 'Also: handler guards are membership tests (not truthiness / selector kind / elif of another dimension); applyAlongDimensions and ncf2ioapi store NLAYS + 1 edges (size algebra).',
  'C11': 'Also: each georeferencing handler runs whenever its dimension is selected (no truthiness test of the selector, no elif chaining of ROW after COL).',
  'C12': 'Also: datetime64 unit no coarser than the resolution found; epoch seconds never cast to 4-byte integers; updatetflag deletes the old TFLAG before it asks getTimes(); in 365/366-day calendars the reference date enters as its positive offset into the model year (R-REFSHIFT).',
- 'C13': 'Also: one end-of-day constant per record reader (run-time choices undecided); wind memmap step size = header + 2 x layers x record + dummy (size algebra).',
+ 'C13': 'Also: one end-of-day constant per record reader (run-time choices undecided); wind memmap step size = header + 2 x layers x record + dummy (size algebra); a record scan driven by record_size can leave at end of file, where RecordFile.next() is silent (R-SCANEOF).',
  'C15': 'Also: registerreader refuses a taken name whatever the class (case analysis); the extension is derived with os.path functions only; pncmfopen passes the caller keywords unchanged.',
  'C16': 'Also: time2t unit table; both range limits from the edge array; no sorting/merging of coordinate or edge values.',
  'C18': 'Also: [tau0, tau1] paired by transposition; attribute <- like-named header field through nested subscripts.',
@@ -147,7 +147,7 @@ CLAIMED.update({
          'Not decided: equality of values with the numpy reduction for every shape, reducer and mask; commutation. Trusted: numpy reducer/apply_along_axis semantics.', '4/C03'),
  'C14': ('dtype-literal evaluator + size algebra on the file-size arithmetic of the memmap readers; guard/raise pairing; rounding lint',
          'Decides structural necessary conditions only: the divisor of the step count equals the item size of the mapped block type (uamiv, lateral_boundary: polynomial identity in nx, ny, nz, nspec); '
-         'counts come from floor division or from a true division with an integrality test that raises; nothing rounds up; bpch maps exactly the counted blocks; the wind step size includes the dummy record. '
+         'counts come from floor division or from a true division with an integrality test that raises; nothing rounds up; bpch maps exactly the counted blocks; the wind step size includes the dummy record; the wind record scan raises at end of file instead of looping (R-SCANEOF). '
          'Not decided: the outcome at every byte offset of a cut (numpy.memmap / reshape validation at run time).', '4/C14'),
  'C17': ('ast shape checks of the weight construction and of every application (broadcast axis vs summed axis), same-weights rule for the normaliser, overlap-fraction form',
          'Decides structural necessary conditions only: weights = linear interpolant of identity(xs.size) at the targets, clipped at 0 then divided by their sum over the source axis; six applications contract the '
